@@ -8,6 +8,7 @@ import pandas as pd
 from twosigma.memento.storage_base import MemoryCache
 
 bad = []
+obs = []   # estimates taken from one element: inaccurate, recorded as an observation, not the repaired defect (D23 = negative estimate)
 
 # 1. negative estimate: Series/DataFrame with > 100 rows and very uneven row sizes (linear regression over a 33/67 split sample)
 neg = None
@@ -45,14 +46,14 @@ big = {"k": "v" * 5_000_000}
 c = MemoryCache(1)
 c.put(mk_memento(f, 1, big), big, True)
 if c.cache:
-    bad.append("dict holding a 5,000,000-byte string is resident in a 1 MiB cache; attributed size %d" % c.memory_usage)
+    obs.append("dict holding a 5,000,000-byte string is resident in a 1 MiB cache; attributed size %d" % c.memory_usage)
 
 # 3. list: size = len * size(first element)
 lst = ["a"] + ["w" * 1_000_000] * 5
 c = MemoryCache(1)
 c.put(mk_memento(f, 1, lst), lst, True)
 if c.cache:
-    bad.append("list holding 5 MB of strings is resident in a 1 MiB cache; attributed size %d" % c.memory_usage)
+    obs.append("list holding 5 MB of strings is resident in a 1 MiB cache; attributed size %d" % c.memory_usage)
 
 # 4. through the storage backend: the budget is meaningless for dict results
 import tempfile
@@ -62,7 +63,9 @@ for i in range(20):
     b.memoize(None, mk_memento(f, i, v), v)
 held = sum(len(e.value["k"]) for e in b._memory_cache.cache.values())
 if held > b._memory_cache.memory_cache_bytes:
-    bad.append("backend with memory_cache_mb=1 keeps %d bytes of dict results resident (memory_usage counter: %d)" % (held, b._memory_cache.memory_usage))
+    obs.append("backend with memory_cache_mb=1 keeps %d bytes of dict results resident (memory_usage counter: %d)" % (held, b._memory_cache.memory_usage))
 
-print("\n".join(bad) or "size accounting honest")
+print("\n".join(bad) or "no negative size estimate")
+for o_ in obs:
+    print("observation:", o_)
 sys.exit(1 if bad else 0)
